@@ -51,6 +51,11 @@ def run(ctx):
             # outside the supported subset, and said so: a path kept twice with different code or arguments
             res.count("rejected_path_kept_twice")
             return
+        if r["error"] is not None and r["error"].get("kind") == "dds" and "before the function that produces it" in (r["error"].get("msg") or ""):
+            # an edit (e.g. a deleted call) left a dds.load in front of the call that produces its path: refused by design (C09),
+            # where plain execution would silently read the previous content
+            res.count("rejected_load_before_produce")
+            return
         if r["error"] is not None:
             res.violations.append({"what": "dds fails where plain execution succeeds: %s" % (r["error"],),
                                    "input": {"step": rec.brief(), "source": progs.render_world(rec.world, "extmod")}, "kf": None})
